@@ -52,8 +52,22 @@ BLOCK, BLOCK_INFO = extract_block(eio.BinFile.read, _pick_convert_block, "conver
 # ---------------------------------------------------------------------------- array stubs: one arbitrary entry of a table
 
 class GMask(NativeModel):
+    """boolean array seen through the same arbitrary entry; elementwise | & ~"""
+
     def __init__(self, t):
         self.t = t
+
+    def __or__(self, o):
+        return GMask(z3.Or(self.t, o.t))
+
+    def __and__(self, o):
+        return GMask(z3.And(self.t, o.t))
+
+    def __xor__(self, o):
+        return GMask(z3.Xor(self.t, o.t))
+
+    def __invert__(self):
+        return GMask(z3.Not(self.t))
 
 
 class GArr(NativeModel):
